@@ -558,6 +558,9 @@ func loadSkipRef() (*skipRef, error) {
 }
 
 func runSkipCond(c *Ctx, pkgs []string) {
+	if !referenceConfig(c) {
+		return
+	}
 	ref, err := loadSkipRef()
 	if err != nil {
 		c.Broken("reference table of condition kinds cannot be read: %v", err)
